@@ -104,6 +104,7 @@ fn gen_generate_valid_inner_value_with_validators<T: ToTokens>(
     }
 
     let basic_value_kind = compute_basic_value_kind(&validator_kinds);
+    let must_be_finite = matches!(basic_value_kind, BasicValueKind::Finite);
     let basic_value = generate_basic_value(inner_type, basic_value_kind);
     let boundaries = compute_boundaries(validators);
 
@@ -111,6 +112,7 @@ fn gen_generate_valid_inner_value_with_validators<T: ToTokens>(
         inner_type,
         basic_value,
         boundaries,
+        must_be_finite,
     ))
 }
 
@@ -118,11 +120,27 @@ fn normalize_basic_value_for_boundaries(
     inner_type: &FloatInnerType,
     basic_value: TokenStream,
     boundaries: Boundaries,
+    must_be_finite: bool,
 ) -> TokenStream {
+    // With `finite` an overflow to infinity has to be brought back to the largest finite value.
+    let keep_finite = if must_be_finite {
+        quote! {
+            let x = if x > #inner_type::MAX {
+                #inner_type::MAX
+            } else if x < #inner_type::MIN {
+                #inner_type::MIN
+            } else {
+                x
+            };
+        }
+    } else {
+        quote! {}
+    };
+
     match (boundaries.lower, boundaries.upper) {
         (Some(lower), Some(upper)) => {
             // In this case we don't use `basic_value` we generate a new value that lays in between
-            // 0.0 and 1.0 and then scale it to the range of the boundaries.
+            // 0.0 and 1.0 and then interpolate between the boundaries.
             let arbitrary_in_01_range = gen_in_01_range(inner_type);
 
             let lower_value = &lower.value;
@@ -132,9 +150,19 @@ fn normalize_basic_value_for_boundaries(
             quote! {
                 let from0to1 = #arbitrary_in_01_range;
 
-                // Scale range [0; 1] to the range of the boundaries
-                let range = (#upper_value - #lower_value).abs();
-                let x = #lower_value + from0to1 * range;
+                // Infinite boundaries cannot be interpolated
+                let lower: #inner_type = #lower_value;
+                let upper: #inner_type = #upper_value;
+                let lower = if lower < #inner_type::MIN { #inner_type::MIN } else { lower };
+                let upper = if upper > #inner_type::MAX { #inner_type::MAX } else { upper };
+
+                // Interpolate between the boundaries.
+                // Unlike `lower + from0to1 * (upper - lower)` this does not overflow when the
+                // boundaries are far apart.
+                let x = lower * (1.0 - from0to1) + upper * from0to1;
+
+                // Rounding may have pushed the value slightly out of the range
+                let x = if x < lower { lower } else if x > upper { upper } else { x };
 
                 // Make sure we satisfy the exclusive boundaries
                 let x = #adjust_x_lower;
@@ -150,6 +178,7 @@ fn normalize_basic_value_for_boundaries(
                 let basic_value = #basic_value;
                 let positive_basic_value = basic_value.abs();
                 let x = positive_basic_value + #lower_value;
+                #keep_finite
                 #adjust_x
             }
         }
@@ -161,6 +190,7 @@ fn normalize_basic_value_for_boundaries(
                 let basic_value = #basic_value;
                 let negative_basic_value = -basic_value.abs();
                 let x = negative_basic_value + #upper_value;
+                #keep_finite
                 #adjust_x
             }
         }
@@ -172,14 +202,27 @@ fn gen_adjust_x_for_upper_boundary(
     float_type: &FloatInnerType,
     upper_boundary: &Boundary,
 ) -> TokenStream {
+    let upper_value = &upper_boundary.value;
     if upper_boundary.is_inclusive {
-        quote! { x }
+        quote! {
+            if x > #upper_value {
+                #upper_value
+            } else {
+                x
+            }
+        }
     } else {
-        let upper_value = &upper_boundary.value;
-        let correction_delta = correction_delta_for_float_type(float_type);
         quote! {
             if x >= #upper_value {
-                x - #correction_delta
+                // The greatest value below the exclusive boundary
+                let boundary: #float_type = #upper_value;
+                if boundary == 0.0 {
+                    -#float_type::from_bits(1)
+                } else if boundary > 0.0 {
+                    #float_type::from_bits(boundary.to_bits() - 1)
+                } else {
+                    #float_type::from_bits(boundary.to_bits() + 1)
+                }
             } else {
                 x
             }
@@ -191,35 +234,33 @@ fn gen_adjust_x_for_lower_boundary(
     float_type: &FloatInnerType,
     lower_boundary: &Boundary,
 ) -> TokenStream {
+    let lower_value = &lower_boundary.value;
     if lower_boundary.is_inclusive {
-        quote! { x }
-    } else {
-        let lower_value = &lower_boundary.value;
-        let correction_delta = correction_delta_for_float_type(float_type);
         quote! {
-            if x <= #lower_value {
-                // Since there is no upper boundary, we are free to add any positive value here
-                // to adjust so we can satisfy the exclusive lower boundary.
-                x + #correction_delta
+            if x < #lower_value {
+                #lower_value
             } else {
                 x
             }
         }
-    }
-}
-
-/// A tiny value that is used to correct the value to satisfy the exclusive boundaries if
-/// necessary.
-/// For example, if the constraint is `greater = 0.0`, then and we obtain exactly `0.0` when
-/// generating a pseudo-random value, then we need to add a tiny value to it to make it
-/// satisfy `x > 0.0` check.
-///
-/// Unfortunately things like `f32::EPSILON` or `f64::EPSILON` are not suitable for this purpose.
-/// The constants are found experimentally.
-fn correction_delta_for_float_type(float_type: &FloatInnerType) -> TokenStream {
-    match float_type {
-        FloatInnerType::F32 => quote!(0.000_002),
-        FloatInnerType::F64 => quote!(0.000_000_000_000_004),
+    } else {
+        quote! {
+            if x <= #lower_value {
+                // The smallest value above the exclusive boundary.
+                // A fixed correction delta does not work here: added to a boundary of a big
+                // magnitude it gets absorbed.
+                let boundary: #float_type = #lower_value;
+                if boundary == 0.0 {
+                    #float_type::from_bits(1)
+                } else if boundary > 0.0 {
+                    #float_type::from_bits(boundary.to_bits() + 1)
+                } else {
+                    #float_type::from_bits(boundary.to_bits() - 1)
+                }
+            } else {
+                x
+            }
+        }
     }
 }
 
